@@ -171,6 +171,38 @@ def run(ctx):
             if any('AcquireError' in t_ for t_ in arg_tys):
                 made = sorted({s.rv.j['variant'] for y in cb.blocks for s in y.stmts if s.kind == 'assign' and s.rv.kind == 'agg' and s.rv.j.get('adt') == UERR})
                 ctx.ob('R12.3', 'a failed blocking acquire maps to Closed', made == ['Closed'], ctx.where(cb), 'constructs %s' % made, construct='map-acquire:' + cb.name)
+    # ---- R12.3 (cont.) Timeout is only ever decided by the semaphore (which also knows that the pool is closed) -------
+    # a Timeout built anywhere else (a counter-based fast path, say) answers Timeout on a closed pool, where Closed is owed
+    n_to = 0
+    for b in (r.TRY_GET, r.TIMEOUT_GET, r.TRY_ADD, r.ADD):
+        cl = [c_ for bb, c_, k in prog.callgraph().get(b.path, []) if k == 'closure']
+        for body in [b] + [prog.bodies[x] for x in cl if x in prog.bodies]:
+            ban = prog.an(body)
+            nop = set()
+            for x in body.blocks:
+                if x.term.kind == 'switch' and x.term.j.get('adt') == 'tokio::sync::TryAcquireError':
+                    arms = dict(x.term.switch_arms())
+                    if 'NoPermits' in arms:
+                        others = [t_ for l2, t_ in arms.items() if l2 != 'NoPermits' and t_ != arms['NoPermits']]
+                        nop |= ban.reach([arms['NoPermits']], ('normal',), avoid=others)
+            for y in body.blocks:
+                if y.cleanup:
+                    continue
+                for s in y.stmts:
+                    if s.kind == 'assign' and s.rv.kind == 'agg' and s.rv.j.get('adt') == UERR and s.rv.j['variant'] == 'Timeout':
+                        n_to += 1
+                        ok = y.idx in nop
+                        if not ok and s.place.is_local():
+                            # `runtime.timeout(d, acquire).await.ok_or(PoolError::Timeout)`: the deadline of a blocking acquire
+                            for z in body.blocks:
+                                if z.term.kind == 'call' and not z.cleanup and 'std::option::Option::ok_or' in z.term.callee_names() and len(z.term.args) == 2 and \
+                                        any(q[0] == 'agg' and q[2] == y.idx for q in sources(ban, z.term.args[1])) and \
+                                        any(q[0] == 'call' and q[1] == 'deadpool_runtime::Runtime::timeout' for q in sources(ban, z.term.args[0], deep=True)):
+                                    ok = True
+                        ctx.ob('R12.3', 'Timeout is decided by the semaphore only (NoPermits, or the deadline of a blocking acquire)', ok, ctx.where(body, s.line),
+                               'PoolError::Timeout is built without the semaphore having been consulted: on a closed pool this call answers Timeout where Closed is owed' if not ok else '',
+                               construct='timeout-without-semaphore:' + b.name)
+    ctx.floor('R12.3', 'constructions of PoolError::Timeout examined', n_to, 3)
     ctx.not_decided += ['that tokio wakes all waiters on close() (trusted)', 'user Drop of T runs under the queue lock inside clear() (noted, outside the property)']
     ctx.assumptions += ['a std Vec never holds more than isize::MAX elements', 'tokio Semaphore::close semantics']
 
